@@ -1,3 +1,64 @@
-(** placeholder *)
-From Xds Require Import Model.SysCheck.
-Theorem C10_placeholder : True. Proof. exact I. Qed.
+(** C10 — Resolution returns exactly the control plane's endpoints for the cluster.
+    Statements only; proofs are [exact] of lemmas in Proofs/MwProofs.v and Proofs/SweepProofs.v.
+    ("cacheable under the cluster name" is a flag of discovery.Result that the model does not carry; the check
+    asserts it on the implementation's results through [res_spec].) *)
+From Xds Require Import Model.Base Model.Fqdn Model.Proto Model.Decode Model.DecodeCheck Model.Pick Model.Route Model.Mw Model.Sys Model.SysCheck.
+From Xds Require Import Proofs.MwProofs Proofs.SweepProofs.
+Open Scope string_scope.
+
+(** A successful resolution returns exactly the endpoints of the cluster's load assignment - the inline one if
+    the cluster has one, otherwise the one cached under the cluster's EDS service name ([c_epname] is the cluster
+    name when no service name is given: [C12_endpoint_name]) - localities concatenated in order, each endpoint's
+    address:port and weight as decoded (C12), and never an empty list. *)
+Theorem C10_exactly_the_endpoints : forall cl eds l,
+  resolve cl eds = Some l ->
+  exists c locs, cl = GOk c /\
+    (c_inline c = Some locs \/ (c_inline c = None /\ eds (c_epname c) = GOk (Some locs))) /\
+    l = concat locs /\ l <> [].
+Proof. exact resolve_some_spec. Qed.
+Print Assumptions C10_exactly_the_endpoints.
+
+Theorem C10_complete : forall c eds locs,
+  (c_inline c = Some locs \/ (c_inline c = None /\ eds (c_epname c) = GOk (Some locs))) ->
+  concat locs <> [] -> resolve (GOk c) eds = Some (concat locs).
+Proof. exact resolve_complete. Qed.
+Print Assumptions C10_complete.
+
+(** A cluster that cannot be fetched, an endpoint set that cannot be fetched, or no endpoints at all: an error. *)
+Theorem C10_never_empty_success : forall cl eds, resolve cl eds <> Some [].
+Proof. exact resolve_never_empty. Qed.
+Print Assumptions C10_never_empty_success.
+
+Theorem C10_cluster_error : forall eds, resolve GErr eds = None.
+Proof. exact resolve_cluster_error. Qed.
+Print Assumptions C10_cluster_error.
+
+Theorem C10_endpoint_error : forall c eds, c_inline c = None -> eds (c_epname c) = GErr -> resolve (GOk c) eds = None.
+Proof. exact resolve_endpoint_error. Qed.
+Print Assumptions C10_endpoint_error.
+
+Theorem C10_no_endpoints : forall c eds,
+  (c_inline c = None /\ eds (c_epname c) = GOk None) \/
+  (exists locs, (c_inline c = Some locs \/ (c_inline c = None /\ eds (c_epname c) = GOk (Some locs))) /\ concat locs = []) ->
+  resolve (GOk c) eds = None.
+Proof. exact resolve_no_endpoints. Qed.
+Print Assumptions C10_no_endpoints.
+
+(** Over histories: in any state of the client/manager machine, resolving [d] applies [resolve] to what is cached
+    NOW for the cluster [d] and for the endpoint sets - and what is cached after any update history is the fold of
+    the accepted responses (C01_refinement). *)
+Theorem C10_resolves_the_cache : forall c o s d,
+  o_lookup (snd (step c o s (OResolve d))) = Some (LResolved (resolve (cached_cluster s d) (cached_endpoints s))).
+Proof. exact resolve_step. Qed.
+Print Assumptions C10_resolves_the_cache.
+
+Theorem C10_resolving_keeps_cache : forall c o s d, s_cache (fst (step c o s (OResolve d))) = s_cache s.
+Proof. exact resolve_keeps_cache. Qed.
+Print Assumptions C10_resolving_keeps_cache.
+
+(** the executable statement evaluated on the implementation holds of the model's own result *)
+Theorem C10_spec_of_model : forall cl eds desc,
+  res_spec {| rs_cluster := cl; rs_eds := []; rs_desc := desc; rs_obs := resolve cl eds;
+              rs_cacheable := true; rs_cache_key := desc; rs_panic := false |} = true.
+Proof. exact res_spec_model. Qed.
+Print Assumptions C10_spec_of_model.
